@@ -447,7 +447,14 @@ pub fn misuse_judge(scn: &Scenario, res: &ExecResult, _b: Option<&ExecResult>) -
         for a in &nt.actions {
             let want = match &a.action {
                 Action::AdvanceWithoutInput => {
-                    if scn.handshake_phase && !nt.calls.iter().any(|c| c.round < a.round && c.running) {
+                    // synchronised = every remote endpoint (players and spectators) has completed
+                    // 5 matched round trips, as counted by the simulated network
+                    let t_call = nt.calls.iter().find(|c| c.round == a.round).map(|c| c.t_us).unwrap_or(u64::MAX);
+                    let me = nt.addr;
+                    let mut remotes: Vec<u8> = scn.peers.iter().filter(|p| p.addr != me).map(|p| p.addr).collect();
+                    remotes.extend(scn.specs.iter().filter(|sp| sp.host == me).map(|sp| sp.addr));
+                    let synced = remotes.iter().all(|r| res.matched_log.iter().any(|m| m.0 == me && m.1 == *r && m.2 >= 5 && m.3 <= t_call));
+                    if scn.handshake_phase && !synced {
                         R_NOT_SYNC
                     } else {
                         // the inputs of a call that stalled stay pending: advancing again without
@@ -487,13 +494,18 @@ fn misuse_part(rep: &mut Report) {
     let t = rep.thorough();
     let mut scns = Vec::new();
     // (topology, window, spectator, handshake phase)
-    for (tp, w, spec, hs) in [("1+1", 2usize, false, false), ("2+1", 8, false, false), ("1+2", 2, false, false), ("1+1", 8, true, false), ("1+1", 0, false, false), ("1+1", 2, false, true)] {
+    for (tp, w, spec, hs) in [("1+1", 2usize, false, false), ("2+1", 8, false, false), ("1+2", 2, false, false), ("1+1", 8, true, false), ("1+1", 0, false, false), ("1+1", 2, false, true), ("1+1", 2, true, true)] {
         let mut base = base_scn("c16-misuse", tp, w, 0, false, Pred::RepeatLast, Program::Changing, 1);
         if spec {
             base.specs.push(SpecSpec::new(20, base.peers[0].addr));
+            if hs {
+                // the spectator's handshake completes later than the remote player's
+                let a = base.peers[0].addr;
+                base.outages.push(crate::net::Outage { from: 20, to: a, start: 0, len: 9, classes: crate::wire::CLASS_ALL });
+            }
         }
         base.handshake_phase = hs;
-        base.horizon = if hs { 16 } else { 10 };
+        base.horizon = if hs { 26 } else { 10 };
         base.probe = 30;
         base.checks = CK_CORE;
         let n = base.num_players;
